@@ -213,7 +213,7 @@ def cases(tier='quick', families=None):
         pairs = [(core[i], core[(i + 1) % len(core)]) for i in range(len(core))]
         for outer in ('SEQUENCE', 'SET', 'CHOICE', 'SEQUENCE OF', 'SET OF'):
             for inner in ('SEQUENCE', 'SET', 'CHOICE', 'SEQUENCE OF', 'SET OF'):
-                for orole in (roles_of(outer) if tier != 'quick' else roles_of(outer)[:2]):
+                for orole in ([r for r in roles_of(outer) if r != 'default'] if tier != 'quick' else roles_of(outer)[:2]):
                     for (l1, l2) in (pairs if tier != 'quick' else pairs[:2]):
                         for td in modes:
                             tm = None if td == 'AUTOMATIC' else (2, 1, None)
